@@ -32,6 +32,21 @@ def minsep_routine(ctx, rule):
         if any(isinstance(n, ast.Subscript) and isinstance(n.slice, ast.Constant) and n.slice.value == 'MIN_SEP_VALS'
                for n in ast.walk(f.node)):
             cands.append(q)
+    if len(cands) > 1:
+        # the look-up split over several helpers (a table check and the look-up proper): the routine is the function that
+        # calls them all
+        callers = []
+        for q, f in p.funcs.items():
+            called = set()
+            for n in ast.walk(f.node):
+                if isinstance(n, ast.Call):
+                    cq = p.resolve_static(f.module, n.func, f)
+                    if cq in cands:
+                        called.add(cq)
+            if called == set(cands):
+                callers.append(q)
+        if len(callers) == 1:
+            cands = callers
     if len(cands) != 1:
         raise AnalysisError(rule, f'the routine that looks the minimum separation up (subscripts the parameters with '
                                   f"'MIN_SEP_VALS') was found {len(cands)} times: {cands}")
@@ -471,6 +486,14 @@ def remerge_bookkeeping(ctx, rule='C06-R6'):
         keep = [(g, v) for g, v in alts if v == me]
         if dec and len(dec) + len(keep) == len(alts):
             counts.append((nm, dec, keep))
+            continue
+        # the other bookkeeping: a tally of merges that starts at 0, goes up by one per merge, and is subtracted from the
+        # count once the loop is over
+        inc = [(g, v) for g, v in alts if v == ('bin', '+', me, C(1))]
+        if inc and len(inc) + len(keep) == len(alts) and init == C(0) and T.contains(
+                s.ret, lambda x: tag(x) == 'bin' and x[1] == '-' and tag(T.peel(x[3])) == 'loopres'
+                and T.peel(x[3])[1] == lp.id and T.peel(x[3])[2] == nm):
+            counts.append((nm, inc, keep))
     ok = False
     if len(counts) == 1 and guard is not None:
         nm, dec, keep = counts[0]
